@@ -193,6 +193,9 @@ def gen_jobs(ctx):
         r = gramgen.nullable2_grammar(rng)
         if r is not None:
             jobs.append(("null2_%d" % i, r[1], list(gramgen.all_strings(["a", "b"], 4 if quick else 5)), cap))
+        r = gramgen.lexamb_grammar(rng)
+        if r is not None:
+            jobs.append(("lexamb%d" % i, r[1], list(gramgen.all_strings(["a", "b"], 5 if quick else 6)), cap))
     return jobs
 
 
